@@ -310,7 +310,9 @@ impl BinArchive {
         }
 
         if let Endian::Big = self.endian {
-            labels.sort_by(|a, b| a.1.cmp(b.1));
+            // Buckets come out of a HashMap in arbitrary order; break ties between equal
+            // name lists by address so the output does not depend on hash order.
+            labels.sort_by(|a, b| a.1.cmp(b.1).then_with(|| a.0.cmp(b.0)));
         } else {
             labels.sort_by(|a, b| a.0.cmp(b.0));
         }
